@@ -689,6 +689,71 @@ theorem ptr_structure (kind : Kind) (h : Nat → Nat) (ipb dcap : Nat) (hk : 0 <
       rw [this]; exact hi.keys_nodup
     · rw [hrel.cap]; exact hi.cap_pos
 
+/-! ### iteration forwards and backwards, dereferencing, `!=` -/
+
+open Ptr in
+/-- one step of the pointer-level model from a coupled state answers what the specification answers -/
+theorem ptr_step_refines (kind : Kind) (h : Nat → Nat) (ps : PState) (s : State) (op : Op)
+    (hp : PRel ps s) (hs : SInv h s) :
+    (pstep kind h ps op).map (fun r => r.2) = (Spec.step kind (abs s) op).map (fun r => r.2) := by
+  have h1 := pstep_sim kind h ps s op hp hs
+  have h2 := (step_refines kind h s op hs).1
+  unfold StepSim at h1
+  rw [← h2]
+  cases hps : pstep kind h ps op with
+  | none =>
+    rw [hps] at h1
+    cases hst : step kind h s op with
+    | none => rfl
+    | some r => rw [hst] at h1; exact False.elim h1
+  | some pr =>
+    rw [hps] at h1
+    cases hst : step kind h s op with
+    | none => rw [hst] at h1; exact False.elim h1
+    | some r =>
+      rw [hst] at h1
+      simp only [Option.map_some, Option.some.injEq]
+      exact h1.1
+
+open Ptr in
+/-- iteration order forwards AND backwards: after every op list (positional inserts, removals from the middle of a chain,
+    clear and reuse, swap, copies, the self-argument members …) on two tables of any capacities, for every hash function:
+    walking `++it` from `begin()` to `end()` over the pointer structure visits exactly the specification's list – the
+    insertion order –, walking `--it` from `end()` down to `begin()` visits exactly its REVERSE, dereferencing the iterator
+    at position `p` (`it.key()`, `*it`, `it->`) shows entry `p` (and is rejected for `end()`), and `!=` answers the negation
+    of `==` -/
+theorem iter_backward (kind : Kind) (h : Nat → Nat) (ipb dcap : Nat) (hk : 0 < ipb) (hd : 0 < dcap) (c0 c1 : Nat)
+    (ops : List Op) (ps' : PState) (outs : List Out)
+    (hr : prun kind h ⟨PTable.construct false ipb dcap c0, PTable.construct true ipb dcap c1⟩ ops = some (ps', outs)) :
+    ∃ ss : Spec.SState, (Spec.run kind Spec.init ops).map (fun r => r.1) = some ss ∧ ∀ t : Bool,
+      (pstep kind h ps' (.iterate t)).map (fun r => r.2) = some (.entries (ss.get t)) ∧
+      (pstep kind h ps' (.iterBack t)).map (fun r => r.2) = some (.entries (ss.get t).reverse) ∧
+      (∀ pos, (pstep kind h ps' (.entryAt t pos)).map (fun r => r.2) = ((ss.get t)[pos]?).map (fun e => Out.entries [e])) ∧
+      (kind ≠ Kind.pool → ∀ u, (pstep kind h ps' (.notEqual t u)).map (fun r => r.2)
+        = some (.flag (!Spec.equal kind (ss.get t) (ss.get u)))) := by
+  have hsim := ptr_simulated kind h ops ⟨PTable.construct false ipb dcap c0, PTable.construct true ipb dcap c1⟩
+    ⟨Table.construct ipb dcap c0, Table.construct ipb dcap c1⟩
+    ⟨fresh_rel false _ _ _, fresh_rel true _ _ _, rfl, rfl⟩ (inv_construct h ipb dcap hk hd c0 c1)
+  have href := refines_every_capacity kind h ipb dcap hk hd c0 c1 ops
+  rw [hr] at hsim
+  cases hrun : run kind h ⟨Table.construct ipb dcap c0, Table.construct ipb dcap c1⟩ ops with
+  | none => rw [hrun] at hsim; exact False.elim hsim
+  | some r =>
+    obtain ⟨s', os'⟩ := r
+    rw [hrun] at hsim href
+    simp only at hsim
+    simp only [Option.map_some] at href
+    refine ⟨abs s', by rw [← href]; rfl, fun t => ?_⟩
+    have hq := fun op => ptr_step_refines kind h ps' s' op hsim.2.1 hsim.2.2
+    refine ⟨?_, ?_, fun pos => ?_, fun hkp u => ?_⟩
+    · rw [hq]; simp [Spec.step, Op.available]
+    · rw [hq]; simp [Spec.step, Op.available]
+    · rw [hq]
+      simp only [Spec.step, Op.available, Bool.not_true, Bool.false_eq_true, if_false]
+      cases ((abs s').get t)[pos]? <;> rfl
+    · rw [hq]
+      have : (Op.notEqual t u).available kind = true := by simp [Op.available, hkp]
+      simp [Spec.step, this]
 /-! ### a client of the library: `Server::Private::_closingClients` (property C14) -/
 
 open Nstd.Generated.HashFn Ptr in
